@@ -295,6 +295,9 @@ func newConn(conn net.Conn, isServer bool, readBufferSize, writeBufferSize int, 
 
 	if writeBufferSize <= 0 {
 		writeBufferSize = defaultWriteBufferSize
+	} else if writeBufferSize < maxControlFramePayloadSize {
+		// must be large enough for control frame
+		writeBufferSize = maxControlFramePayloadSize
 	}
 	writeBufferSize += maxFrameHeaderSize
 
